@@ -121,6 +121,16 @@ class Ctx:
             return False
         return self._check([z3.Not(b)]) == z3.unsat
 
+    def entails_pc(self, b):
+        """Entailed by the path condition alone (guards of the specification sub-expression being evaluated are ignored): what
+        may be remembered beyond the current sub-expression."""
+        b = z3.simplify(b)
+        if z3.is_true(b):
+            return True
+        if z3.is_false(b) or not is_light(b):
+            return False
+        return self.solver.check(z3.Not(b)) == z3.unsat
+
     def feasible(self, b):
         return self._check([b]) != z3.unsat
 
